@@ -1241,6 +1241,7 @@ Qed.
 Inductive StmtsOK (tn : bool) : bool -> list token -> list stmt -> N -> bool -> Prop :=
 | SO_nil : forall fn, StmtsOK tn fn [] [] 0 false
 | SO_cons : forall fn X st dx hx Xs sts dn hf,
+    is_postfix_stmt st = false ->      (* a ++ / -- statement only comes in through SO_pair *)
     StmtOK X st tn fn dx hx -> StmtsOK tn (fn && negb hx) Xs sts dn hf ->
     StmtsOK tn fn (X ++ Xs) (st :: sts) (N.max dx dn) (hx || hf)
 | SO_pair : forall fn n op Xs sts dn hf, postfix_op op = true ->
@@ -1250,7 +1251,7 @@ Inductive StmtsOK (tn : bool) : bool -> list token -> list stmt -> N -> bool -> 
 
 Lemma stmts_head : forall tn fn Xs sts dn hf, StmtsOK tn fn Xs sts dn hf -> Xs = [] \/ sbegins Xs.
 Proof.
-  intros tn fn Xs sts dn hf H. destruct H as [fn|fn X st dx hx Xs sts dn hf [HbX _] _|fn n op Xs sts dn hf _ _].
+  intros tn fn Xs sts dn hf H. destruct H as [fn|fn X st dx hx Xs sts dn hf _ [HbX _] _|fn n op Xs sts dn hf _ _].
   - left; reflexivity.
   - right. apply sbegins_app. exact HbX.
   - right. eexists _, _; split; reflexivity.
@@ -1276,7 +1277,7 @@ Lemma block_loop_ok : forall tn fn Xs sts dn hf, StmtsOK tn fn Xs sts dn hf ->
     exists s', parse_block_loop pf md f acc s = POk (rev acc ++ sts) s' /\ post s s' rest hf.
 Proof.
   intros tn fn Xs sts dn hf H.
-  induction H as [fn|fn X st dx hx Xs sts dn hf [HbX HX] HXs IH|fn n op Xs sts dn hf Hop HXs IH];
+  induction H as [fn|fn X st dx hx Xs sts dn hf Hnp [HbX HX] HXs IH|fn n op Xs sts dn hf Hop HXs IH];
     intros acc rest f s Hpos Htn Hfn Hfit Hf.
   - cbn [app] in Hpos. apply pos_cons in Hpos. destruct Hpos as [Hcur Hbef].
     destruct f as [|f]; [lia|]. rewrite parse_block_loop_S. unfold cur_is. rewrite Hcur.
@@ -1298,7 +1299,7 @@ Proof.
       unfold cur_is. rewrite Hc2.
       assert (Heof : tokty_beq (tty (hd eof_tok (Xs ++ tk TRBrace :: rest))) TEOF = false).
       { destruct Hn3 as [E|[_ E]]; [subst Xs; reflexivity|exact E]. }
-      rewrite Heof, Hn2. cbn [orb].
+      rewrite Heof, Hn2. cbn [orb]. rewrite (bind_postfix_not_postfix acc st Hnp).
       destruct (IH (st :: acc) rest f (next s1)) as (s2 & E2 & Hb2 & Ht2 & Hd2 & Hi2).
       * apply before_next. exact Hb1.
       * autorewrite with st. congruence.
@@ -1315,7 +1316,7 @@ Proof.
       by (unfold nosemi; cbn [hd]; rewrite tty_tk; destruct op; try discriminate Hop; reflexivity).
     destruct (stmt_bare_ident n _ (S f) s Hcl1 Hns1 Hpos) as (s1 & E1 & Hc1 & Hb1 & Ht1 & Hd1 & Hi1).
     { eapply fits_le; [exact Hfit|lia]. }
-    rewrite E1. cbn [pbind].
+    rewrite E1. cbn [pbind bind_postfix].
     destruct (before_step _ _ _ Hb1) as [Hc2 Hb2].
     unfold cur_is. rewrite Hc2, tty_tk.
     replace (tokty_beq op TEOF || tokty_beq op TIllegal) with false
@@ -1327,7 +1328,7 @@ Proof.
     destruct (stmt_postfix op (Xs ++ tk TRBrace :: rest) f (next s1) Hop Hn1) as (s3 & E3 & Hb3 & Ht3 & Hd3 & Hi3).
     { split; [exact Hc2|exact Hb2]. }
     { autorewrite with st. rewrite Hd1. eapply fits_le; [exact Hfit|lia]. }
-    rewrite E3. cbn [pbind]. rewrite prevT_next, Hc1. cbn [tlit].
+    rewrite E3. cbn [pbind bind_postfix].
     assert (Hc4 : curT (next s3) = hd eof_tok (Xs ++ tk TRBrace :: rest))
       by (apply before_next in Hb3; apply Hb3).
     unfold cur_is. rewrite Hc4.
@@ -1368,7 +1369,7 @@ Lemma program_loop_ok : forall tn fn Xs sts dn hf, StmtsOK tn fn Xs sts dn hf ->
     exists s', parse_program_loop pf md f acc s = POk (rev acc ++ sts) s'.
 Proof.
   intros tn fn Xs sts dn hf H.
-  induction H as [fn|fn X st dx hx Xs sts dn hf [HbX HX] HXs IH|fn n op Xs sts dn hf Hop HXs IH];
+  induction H as [fn|fn X st dx hx Xs sts dn hf Hnp [HbX HX] HXs IH|fn n op Xs sts dn hf Hop HXs IH];
     intros acc f s Hpos Htn Hfn Hfit Hf.
   - cbn [app] in Hpos. apply pos_cons in Hpos. destruct Hpos as [Hcur Hbef].
     destruct f as [|f]; [lia|]. rewrite parse_program_loop_S. unfold cur_is. rewrite Hcur.
@@ -1383,7 +1384,7 @@ Proof.
     destruct (HX (Xs ++ [eof]) (S f) s) as (s1 & E1 & Hb1 & Ht1 & Hd1 & Hi1); try assumption.
     + eapply fits_le; [exact Hfit|lia].
     + lia.
-    + rewrite E1. cbn [pbind].
+    + rewrite E1. cbn [pbind]. rewrite (bind_postfix_not_postfix acc st Hnp).
       destruct (IH (st :: acc) f (next s1)) as (s2 & E2).
       * apply before_next. exact Hb1.
       * autorewrite with st. congruence.
@@ -1399,7 +1400,7 @@ Proof.
       by (unfold nosemi; cbn [hd]; rewrite tty_tk; destruct op; try discriminate Hop; reflexivity).
     destruct (stmt_bare_ident n _ (S f) s Hcl1 Hns1 Hpos) as (s1 & E1 & Hc1 & Hb1 & Ht1 & Hd1 & Hi1).
     { eapply fits_le; [exact Hfit|lia]. }
-    rewrite E1. cbn [pbind].
+    rewrite E1. cbn [pbind bind_postfix].
     destruct (before_step _ _ _ Hb1) as [Hc2 Hb2].
     rewrite parse_program_loop_S. unfold cur_is. rewrite Hc2, tty_tk.
     replace (tokty_beq op TEOF) with false by (destruct op; try discriminate Hop; reflexivity).
@@ -1409,7 +1410,7 @@ Proof.
     destruct (stmt_postfix op (Xs ++ [eof]) f (next s1) Hop Hn1) as (s3 & E3 & Hb3 & Ht3 & Hd3 & Hi3).
     { split; [exact Hc2|exact Hb2]. }
     { autorewrite with st. rewrite Hd1. eapply fits_le; [exact Hfit|lia]. }
-    rewrite E3. cbn [pbind]. rewrite prevT_next, Hc1. cbn [tlit]. autorewrite with st in *.
+    rewrite E3. cbn [pbind bind_postfix]. autorewrite with st in *.
     destruct (IH (SExpr (EPostfix n op) :: SExpr (EIdent n) :: acc) (S (S f)) (next s3)) as (s4 & E4).
     + apply before_next. exact Hb3.
     + autorewrite with st. congruence.
@@ -2067,7 +2068,7 @@ Proof.
     rewrite glue_step.
     destruct (is_id s) as [n|] eqn:Eid.
     + destruct l as [|s2 l2].
-      * cbn [map maxl fold_right existsb]. apply SO_cons; [|constructor].
+      * cbn [map maxl fold_right existsb]. apply SO_cons; [exact Hhd| |constructor].
         apply (proj1 HQs tn fn Hhd Ht1 Hf1).
       * destruct (is_post s2) eqn:Ep2.
         -- apply is_id_some in Eid. subst s. destruct (is_post_true _ Ep2) as (m & op & ->).
@@ -2084,10 +2085,12 @@ Proof.
            ++ cbn [List.length] in Hlen. lia.
            ++ destruct l2 as [|s3 l3]; [exact I|]. cbn [is_id] in Hpa2. apply (paired_head _ _ Hpa2).
         -- cbn [map maxl fold_right existsb]. apply SO_cons.
+           ++ exact Hhd.
            ++ apply (proj1 HQs tn fn Hhd Ht1 Hf1).
            ++ apply (IH (s2 :: l2)) with (prev := Some n); try assumption.
               ** lia.
     + cbn [map maxl fold_right existsb]. apply SO_cons.
+      * exact Hhd.
       * replace (match l with [] => show_stmt s | _ :: _ => show_stmt s end) with (show_stmt s)
           by (destruct l; reflexivity).
         apply (proj1 HQs tn fn Hhd Ht1 Hf1).
@@ -3042,7 +3045,7 @@ Proof.
   pose proof (stmt_expr pf 0 _ _ _ _ _ _ HI) as HS.
   assert (HSS : StmtsOK pf 0 false false ((show_x t ++ [tk TSemicolon]) ++ []) [SExpr (x_expr t)]
                   (N.max 0 0) (false || false)).
-  { apply SO_cons; [exact HS|constructor]. }
+  { apply SO_cons; [destruct t; reflexivity|exact HS|constructor]. }
   rewrite app_nil_r in HSS.
   unfold parse_tokens.
   destruct (program_loop_ok pf 0 _ _ _ _ _ _ HSS [] (2 * List.length (show_x t ++ [semi; eof]) + 20)%nat
